@@ -196,7 +196,7 @@ def processes(job, kind, mode, tier):
                                 job.prove(tag + "/follows_fit%d/k%d" % (i + 1, k), cs, lift(m.permeances[k][i].value) != want, R_, inputs,
                                           congruence=["EXP"], near=2, timeout=40)
                     if not got:
-                        job.vacuity["failed"].append(tag)
+                        job.unreached(tag)
 
 
 def curve(job, mode, tier):
@@ -262,7 +262,7 @@ def curve(job, mode, tier):
                                     job.prove(tag + "/%s/follows_fit%d/p%d" % (vname, i + 1, k), cs + extra,
                                               terms.exp_normal(lift(dc.permeances[k][i].value)) != terms.exp_normal(want), R_, inputs, congruence=["EXP"], timeout=40)
                     if not got:
-                        job.vacuity["failed"].append(tag)
+                        job.unreached(tag)
 
 
 JOB_TIMEOUT = {"quick": 500, "thorough": 2400}
